@@ -65,6 +65,7 @@ fn main() {
         "record-chunker" => chunk::record(&arg(2), num(3, 20), arg(4) != "nopanic"),
         "record-data" => data::record_translate(&arg(2), num(3, 30)),
         "record-hops" => data::record_hops(&arg(2), num(3, 30)),
+        "record-toml" => data::record_toml(&arg(2), num(3, 30)),
         "record-detect" => detect::record(&arg(2), num(3, 50)),
         "record-mem" => {
             let sizes: Vec<usize> = arg(4).split(',').filter_map(|s| s.parse().ok()).collect();
